@@ -516,7 +516,8 @@ impl<'iter, 'ast, 'decls> ResolverContext<'iter, 'ast, 'decls>
     {
         let bank = defs.bankdefs.get(self.bank_ref);
 
-        Some(bank.output_offset? + self.bank_data.cur_position)
+        // A position past the representable range has no place in the output
+        bank.output_offset?.checked_add(self.bank_data.cur_position)
     }
 
 
